@@ -621,3 +621,40 @@ pub fn cfg_input_strategy(co: CfgOpts, io: InOpts) -> BoxedStrategy<(CfgSpec, In
         })
         .boxed()
 }
+
+/// Inputs that stress the LPC path: full-scale alternating / periodic / two-valued / stepping
+/// content (ill-conditioned autocorrelation, huge coefficients), often next to near-silence.
+pub fn lpc_stress_input_strategy(block: usize) -> BoxedStrategy<InputSpec> {
+    let seg = || {
+        (
+            prop_oneof![4 => Just(8u8), 2 => Just(11u8), 2 => Just(13u8), 1 => Just(9u8), 1 => Just(7u8), 1 => Just(10u8), 1 => Just(3u8), 1 => Just(12u8), 1 => Just(15u8), 1 => Just(0u8)],
+            prop_oneof![6 => Just(4u8), 2 => Just(3u8), 1 => Just(2u8), 1 => Just(0u8)],
+            any::<u32>(),
+        )
+            .prop_map(|(class, amp, p)| Seg { class, amp, p })
+    };
+    let chan = move || proptest::collection::vec(seg(), 1..=3).prop_map(|segs| ChanSpec { segs });
+    (
+        prop_oneof![3 => Just(1usize), 3 => Just(2usize), 1 => Just(3usize)],
+        prop_oneof![1 => Just(8usize), 1 => Just(12usize), 2 => Just(16usize), 3 => Just(20usize), 5 => Just(24usize)],
+        rate_strategy(),
+        any::<u64>(),
+        0u8..=4,
+    )
+        .prop_flat_map(move |(channels, bps, rate, seed, rel)| {
+            (len_strategy(block, (16_000 / channels).max(block)), proptest::collection::vec(chan(), channels..=channels))
+                .prop_map(move |(len, chans)| InputSpec { channels, bps, rate, len, chans, rel, seed })
+        })
+        .boxed()
+}
+
+pub fn lpc_stress_strategy() -> BoxedStrategy<(CfgSpec, InputSpec)> {
+    cfg_strategy(CfgOpts { max_block: 4608, ..Default::default() })
+        .prop_flat_map(|mut cfg| {
+            cfg.use_lpc = true;
+            let b = cfg.block_size.max(64);
+            cfg.block_size = b;
+            (Just(cfg), lpc_stress_input_strategy(b))
+        })
+        .boxed()
+}
